@@ -5,7 +5,7 @@
      Part H: crash = cut of the newest file; recovery from the surviving prefix
              (crash_recover_CInv) and the C02 theorems.
      Part I: C03 (atomic batches, torn write, last-op-wins of the transaction buffer). *)
-From Coq Require Import Lia ZifyN ZifyNat ZifyBool Sorted Permutation.
+From Coq Require Import PeanoNat Lia ZifyN ZifyNat ZifyBool Sorted Permutation.
 From KV Require Import Bytes Spec Memtable MemtableProofs WalCodec Engine EngineProofs.
 Open Scope N_scope.
 
@@ -37,10 +37,8 @@ Module TestsC.
     let m := surv_count s q (ack_seqs (init c) p) in
     (lost_log (recover (crash s q)), m,
      map (fun k => (get (recover (crash s q)) k, spec_get (firstn m (acked (init c) p)) k)) ks).
-  Eval vm_compute in (map (map w_seq) (wal_files (run cA pA)), ack_seqs (init cA) pA).
-  Eval vm_compute in map (fun q => chk cA pA q [k1; k2; k3]) [0; 3; 5; 7; 8; 9; 10; 100].
-  Eval vm_compute in map (fun q => chk (mkCfg 1 100) (pA ++ [OFlush; OPut k1 (v 11)]) q [k1; k2; k3]) [0; 5; 9; 10; 11; 100].
-  Eval vm_compute in map (fun q => chk (mkCfg 1 3) pA q [k1; k2; k3]) [0; 3; 100].
+  (* per bound q: log lost?, prefix length m, per key (get after recovery, spec of the prefix) *)
+  Eval vm_compute in map (fun q => chk cA pA q [k1; k2; k3]) [0; 5; 7; 9; 100].
 End TestsC.
 
 (* ------------------------------------------------------------------------------------ *)
@@ -215,6 +213,14 @@ Proof.
   rewrite cut_seq_wstamp, IH. cbn [filter]. destruct (below q p); reflexivity.
 Qed.
 
+Lemma filter_below_nil : forall q a l,
+  Forall (fun n => a < n) (map fst l) -> (a <? q) = false -> filter (below q) l = [].
+Proof.
+  intros q a l H B. induction l as [|p l IH]; [reflexivity|].
+  cbn [map] in H. inversion H as [|? ? Hp Hl]; subst. cbn [filter]. unfold below at 1.
+  assert (E : (fst p <? q) = false) by lia. rewrite E. apply IH. exact Hl.
+Qed.
+
 (* on a strictly increasing list the writes below q are a prefix *)
 Lemma filter_below_prefix : forall q l,
   StronglySorted N.lt (map fst l) ->
@@ -225,10 +231,7 @@ Proof.
   destruct (below q p) eqn:B.
   - cbn [length firstn]. rewrite <- IH by exact Hs'. reflexivity.
   - assert (E : filter (below q) l = []).
-    { clear IH. induction l as [|p' l IHl]; [reflexivity|].
-      cbn [map] in *. inversion Hf as [|? ? Hp' Hf']; subst. inversion Hs' as [|? ? Hs'' _]; subst.
-      cbn [filter]. unfold below in *.
-      assert (E' : (fst p' <? q) = false) by lia. rewrite E'. apply IHl; assumption. }
+    { apply filter_below_nil with (a := fst p); [exact Hf|exact B]. }
     rewrite E. reflexivity.
 Qed.
 
@@ -290,11 +293,10 @@ Proof.
     intros n Hn. apply in_map_iff in Hn. destruct Hn as (p & <- & Hp).
     unfold survives. apply orb_true_iff. right. apply existsb_eqb_in. rewrite Hc.
     apply seq_in_wentries; [exact Hp|]. rewrite Forall_forall in Hne0. exact (Hne0 p Hp).
-  - rewrite <- filter_map_length with (f := fun n => n <? q) (g := fst).
-    f_equal. apply filter_ext_in. intros n Hn. unfold survives.
-    destruct (existsb (N.eqb n) (closed_seqs s)) eqn:E; [|apply orb_false_r].
+  - rewrite filter_map_length. f_equal. apply filter_ext_in. intros p Hp. unfold survives, below.
+    destruct (existsb (N.eqb (fst p)) (closed_seqs s)) eqn:E; [|apply orb_false_r].
     exfalso. apply existsb_eqb_in in E. rewrite Hc in E. apply wentries_seq_from in E.
-    specialize (Hcross n n E Hn). lia.
+    specialize (Hcross (fst p) (fst p) E (in_map fst _ _ Hp)). lia.
 Qed.
 
 Lemma key_written_mono : forall h1 h2 x, key_written h1 x -> key_written (h1 ++ h2) x.
@@ -303,26 +305,45 @@ Proof.
   apply in_or_app. left. exact H.
 Qed.
 
-(* The state after a process stop with bound q and recovery: the invariants hold again, for
-   the prefix of the history that survived. [h] is the history of the crashed state. *)
-Lemma crash_recover_CInv : forall s h q tbls maxseq,
-  CInv s h -> recovered (crash s q) = Some (tbls, maxseq) ->
-  CInv (recover (crash s q)) (firstn (surv_count s q (map fst h)) h).
+(* what is on disk after a process stop with bound q: the files of a prefix of the history *)
+Lemma crash_split : forall s h q, CInv s h ->
+  exists hs0 hl',
+    firstn (surv_count s q (map fst h)) h = concat hs0 ++ hl' /\
+    wal_files (crash s q) = map wentries hs0 ++ [wentries hl'] /\
+    (lost_log s = false -> Forall (Forall (key_written (concat hs0))) (tabs_of s)).
 Proof.
-  intros s h q tbls maxseq [I (hs0 & hl & Hh & Hf & Hs)] R.
+  intros s h q [I (hs0 & hl & Hh & Hf & Hs)].
   assert (Hm : surv_count s q (map fst h) = (length (concat hs0) + length (filter (below q) hl))%nat).
   { rewrite Hh. apply surv_count_split; [exact Hf| |]; rewrite <- Hh.
     - exact (inv_sorted s h I).
     - exact (inv_nonempty s h I). }
   assert (Hsl : StronglySorted N.lt (map fst hl)).
   { pose proof (inv_sorted s h I) as S. rewrite Hh, map_app in S. apply SS_app in S. tauto. }
-  assert (Hpre : firstn (surv_count s q (map fst h)) h = concat hs0 ++ filter (below q) hl).
-  { rewrite Hm. rewrite Hh at 2. rewrite firstn_app_2, <- filter_below_prefix by exact Hsl. reflexivity. }
-  assert (Hcf : wal_files (crash s q) = map wentries hs0 ++ [wentries (filter (below q) hl)]).
-  { unfold crash, on_disk; proj. rewrite Hf, map_last_snoc, cut_seq_wentries. reflexivity. }
+  exists hs0, (filter (below q) hl). split; [|split].
+  - rewrite Hm. rewrite Hh. rewrite firstn_app_2, <- filter_below_prefix by exact Hsl. reflexivity.
+  - unfold crash, on_disk; proj. rewrite Hf, map_last_snoc, cut_seq_wentries. reflexivity.
+  - exact Hs.
+Qed.
+
+Lemma crash_log : forall s h q, CInv s h ->
+  concat (wal_files (crash s q)) = wentries (firstn (surv_count s q (map fst h)) h).
+Proof.
+  intros s h q C. destruct (crash_split s h q C) as (hs0 & hl' & Hpre & Hcf & _).
+  rewrite Hcf, Hpre, concat_app, wentries_app, wentries_concat. cbn [concat].
+  rewrite app_nil_r. reflexivity.
+Qed.
+
+(* The state after a process stop with bound q and recovery: the invariants hold again, for
+   the prefix of the history that survived. [h] is the history of the crashed state. *)
+Lemma crash_recover_CInv : forall s h q tbls maxseq,
+  CInv s h -> recovered (crash s q) = Some (tbls, maxseq) ->
+  CInv (recover (crash s q)) (firstn (surv_count s q (map fst h)) h).
+Proof.
+  intros s h q tbls maxseq C R.
+  destruct (crash_split s h q C) as (hs0 & hl' & Hpre & Hcf & Hs). destruct C as [I _].
   assert (D : DiskInv (crash s q) (firstn (surv_count s q (map fst h)) h)).
   { constructor.
-    - rewrite firstn_map. apply SS_firstn. exact (inv_sorted s h I).
+    - rewrite <- firstn_map. apply SS_firstn. exact (inv_sorted s h I).
     - apply Forall_firstn_. exact (inv_nonempty s h I).
     - rewrite Hcf, Hpre, concat_app, wentries_app, wentries_concat. cbn [concat].
       rewrite app_nil_r. reflexivity.
@@ -331,8 +352,504 @@ Proof.
       intros x Hx. apply key_written_mono. exact Hx. }
   unfold recover. split.
   - eapply Inv_reopen_disk; eassumption.
-  - rewrite (reopen_some _ tbls maxseq R). exists hs0, (filter (below q) hl).
+  - rewrite (reopen_some _ tbls maxseq R). exists hs0, hl'.
     unfold tabs_of; proj. split; [exact Hpre|]. split.
     + apply reopen_files_snoc. exact Hcf.
     + unfold crash at 1 2, on_disk; proj. intros Hl. apply tabs_sst_sort. exact (Hs Hl).
+Qed.
+
+(* ---------- C02 theorems ---------- *)
+
+(* acknowledged writes with their numbers *)
+Definition history (c : config) (ops : list op) : hist :=
+  combine (ack_seqs (init c) ops) (acked (init c) ops).
+
+Lemma epoch_history : forall c ops, lost_log (run c ops) = false ->
+  epoch (init c) ops [] = history c ops /\
+  map fst (epoch (init c) ops []) = ack_seqs (init c) ops /\
+  map snd (epoch (init c) ops []) = acked (init c) ops.
+Proof.
+  intros c ops Hl. unfold run in Hl.
+  pose proof (epoch_fst ops (init c) [] Hl) as E1. pose proof (epoch_snd ops (init c) [] Hl) as E2.
+  cbn [map app] in E1, E2. split; [|split; assumption].
+  unfold history. rewrite <- E1, <- E2, combine_fst_snd. reflexivity.
+Qed.
+
+Lemma recovered_of_lost_log : forall s,
+  lost_log (reopen s) = false -> exists tbls maxseq, recovered s = Some (tbls, maxseq).
+Proof.
+  intros s H. rewrite lost_log_reopen in H. destruct (recovered s) as [[t m]|]; [|discriminate].
+  eexists _, _. reflexivity.
+Qed.
+
+(* C02a: after a process stop and recovery every key reads as after a PREFIX of the
+   acknowledged writes (batches whole). The length of the prefix is the number of
+   acknowledged writes that survive: those with a number below q and those logged in an
+   already closed log file (whatever q). *)
+Theorem C02_crash_prefix : forall c ops q,
+  lost_log (run c ops) = false ->
+  lost_log (recover (crash (run c ops) q)) = false ->
+  forall k,
+    get (recover (crash (run c ops) q)) k =
+    spec_get (firstn (surv_count (run c ops) q (ack_seqs (init c) ops)) (acked (init c) ops)) k.
+Proof.
+  intros c ops q Hl Hr k. destruct (epoch_history c ops Hl) as (_ & E1 & E2).
+  destruct (recovered_of_lost_log _ Hr) as (tbls & maxseq & R).
+  destruct (crash_recover_CInv _ _ q tbls maxseq (CInv_run c ops) R) as [I _].
+  rewrite (get_inv _ _ k I Hr), <- firstn_map, E1, E2. reflexivity.
+Qed.
+
+(* when q is above everything in the closed files only the bound matters *)
+Lemma surv_count_simple : forall s q qs,
+  Forall (fun n => n < q) (closed_seqs s) ->
+  surv_count s q qs = length (filter (fun n => n <? q) qs).
+Proof.
+  intros s q qs H. unfold surv_count. f_equal. apply filter_ext. intros n. unfold survives.
+  destruct (existsb (N.eqb n) (closed_seqs s)) eqn:E; [|apply orb_false_r].
+  apply existsb_eqb_in in E. rewrite Forall_forall in H. specialize (H n E).
+  assert (L : (n <? q) = true) by lia. rewrite L. reflexivity.
+Qed.
+
+Lemma reachable_CInv : forall s, reachable s -> exists h, CInv s h.
+Proof. intros s (c & ops & ->). eexists. apply CInv_run. Qed.
+
+Lemma cut_seq_all : forall q f, Forall (fun e => w_seq e < q) f -> cut_seq q f = f.
+Proof.
+  intros q f H. unfold cut_seq. apply filter_all. intros e He.
+  rewrite Forall_forall in H. specialize (H e He). lia.
+Qed.
+
+Lemma reopen_on_disk : forall s, reopen (on_disk s (wal_files s)) = reopen s.
+Proof. intros s. unfold reopen, on_disk; proj. reflexivity. Qed.
+
+(* synchronous logging: with the whole log on disk a crash is a clean reopen *)
+Lemma crash_all_survive : forall s q, reachable s -> wal_next s <= q ->
+  recover (crash s q) = reopen s.
+Proof.
+  intros s q R Hq. destruct (reachable_CInv s R) as (h & I & (hs0 & hl & Hh & Hf & _)).
+  unfold recover, crash. rewrite Hf, map_last_snoc, cut_seq_all, <- Hf; [apply reopen_on_disk|].
+  rewrite Forall_forall. intros e He. apply in_wentries in He.
+  destruct He as (p & o & Hp & _ & ->). rewrite wseq_bop_entry.
+  pose proof (inv_bound s h I) as B. rewrite Forall_forall in B.
+  assert (Hin : In (fst p) (map fst h)).
+  { apply in_map. rewrite Hh. apply in_or_app. right. exact Hp. }
+  specialize (B _ Hin). lia.
+Qed.
+
+Theorem C02_sync_durable : forall s q k,
+  reachable s -> wal_next s <= q -> lost_log (recover (crash s q)) = false ->
+  get (recover (crash s q)) k = get s k.
+Proof.
+  intros s q k R Hq Hl. rewrite (crash_all_survive s q R Hq) in *.
+  apply C01_reopen_invariant; assumption.
+Qed.
+
+Lemma last_effect_in : forall k l x, last_effect k l = Some x -> In (k, x) l.
+Proof.
+  intros k l x. induction l as [|[k' v] r IH]; cbn [last_effect]; [discriminate|].
+  destruct (last_effect k r) as [y|].
+  - intros E. right. apply IH. exact E.
+  - destruct (beq k' k) eqn:B; [|discriminate]. intros E. injection E as <-.
+    apply beq_true_iff in B. subst. left. reflexivity.
+Qed.
+
+Lemma flat_firstn_incl : forall m (l : list wop), incl (flat (firstn m l)) (flat l).
+Proof.
+  intros m l x H. rewrite <- (firstn_skipn m l). unfold flat in *. rewrite flat_map_app.
+  apply in_or_app. left. exact H.
+Qed.
+
+(* whatever is readable after recovery was acknowledged, with that value, for that key *)
+Theorem C02_nothing_invented : forall c ops q k v,
+  lost_log (run c ops) = false ->
+  lost_log (recover (crash (run c ops) q)) = false ->
+  get (recover (crash (run c ops) q)) k = Some v ->
+  In (k, Some v) (flat (acked (init c) ops)).
+Proof.
+  intros c ops q k v Hl Hr G. rewrite (C02_crash_prefix c ops q Hl Hr k) in G.
+  unfold spec_get, latest in G.
+  destruct (last_effect k (flat (firstn _ (acked (init c) ops)))) as [[v'|]|] eqn:L; try discriminate.
+  injection G as ->. apply last_effect_in in L. eapply flat_firstn_incl. exact L.
+Qed.
+
+Theorem C02_clean_reopen : forall s k,
+  reachable s -> lost_log (reopen s) = false -> get (reopen s) k = get s k.
+Proof. exact C01_reopen_invariant. Qed.
+
+(* the recovered state satisfies the invariant again, for the surviving prefix; so everything
+   proved for runs applies to what is written after the recovery *)
+Theorem C02_again : forall c ops q,
+  lost_log (run c ops) = false ->
+  lost_log (recover (crash (run c ops) q)) = false ->
+  let s' := recover (crash (run c ops) q) in
+  let m := surv_count (run c ops) q (ack_seqs (init c) ops) in
+  Inv s' (firstn m (history c ops)) /\
+  forall ops' k,
+    lost_log (fold_left step ops' s') = false ->
+    get (fold_left step ops' s') k =
+    spec_get (firstn m (acked (init c) ops) ++ acked s' ops') k.
+Proof.
+  intros c ops q Hl Hr. cbn zeta. destruct (epoch_history c ops Hl) as (E0 & E1 & E2).
+  destruct (recovered_of_lost_log _ Hr) as (tbls & maxseq & R).
+  destruct (crash_recover_CInv _ _ q tbls maxseq (CInv_run c ops) R) as [I _].
+  rewrite E1, E0 in I. split; [exact I|].
+  intros ops' k Hl'. rewrite (get_inv _ _ k (Inv_steps ops' _ _ I) Hl').
+  rewrite (epoch_snd ops' _ _ Hl'), <- firstn_map. unfold history.
+  rewrite <- E1, <- E2, combine_fst_snd. reflexivity.
+Qed.
+
+(* the recovered counter is (largest surviving number) + 1: numbers of lost writes are handed
+   out again, but the numbers of the surviving writes followed by those of later writes
+   increase strictly *)
+Theorem C08_after_crash : forall c ops q ops',
+  lost_log (run c ops) = false ->
+  let s' := recover (crash (run c ops) q) in
+  let m := surv_count (run c ops) q (ack_seqs (init c) ops) in
+  lost_log (fold_left step ops' s') = false ->
+  StronglySorted N.lt (firstn m (ack_seqs (init c) ops) ++ ack_seqs s' ops').
+Proof.
+  intros c ops q ops' Hl. cbn zeta. intros Hl'.
+  destruct (epoch_history c ops Hl) as (_ & E1 & _).
+  pose proof (lost_log_steps_false ops' _ Hl') as Hr.
+  destruct (recovered_of_lost_log _ Hr) as (tbls & maxseq & R).
+  destruct (crash_recover_CInv _ _ q tbls maxseq (CInv_run c ops) R) as [I _].
+  pose proof (inv_sorted _ _ (Inv_steps ops' _ _ I)) as S.
+  rewrite (epoch_fst ops' _ _ Hl'), <- firstn_map, E1 in S. exact S.
+Qed.
+
+(* a run with a flush (closed log file), a batch and a transaction with repeated keys, a
+   reopen, then a process stop in the middle of the newest file (bound 8: the writes numbered
+   8 and 9 are lost), recovery, and two more writes (numbered 8 and 9 again) *)
+Module C02_example.
+  Definition k1 : bytes := [1]. Definition k2 : bytes := [2]. Definition k3 : bytes := [1;0].
+  Definition cfg0 := mkCfg 40 10.
+  Definition prog : list op :=
+    [OPut k1 [11]; OPut k2 [12]; OPut k3 [13]; OFlush; OPut k1 [14]; ODel k2;
+     OBatch [(k2, Some [15]); (k3, None); (k2, Some [16]); (k1, None)]; OBatch [];
+     OReopen; OPut k3 [17]; OCommit [(k1, Some [18]); (k1, Some [19]); (k2, None)];
+     OPut k2 [20]].
+  Definition s0 := run cfg0 prog.
+  Definition s1 := recover (crash s0 8).
+  Definition prog' : list op := [OPut k1 [21]; ODel k3].
+  Example hyps : lost_log s0 = false /\ lost_log s1 = false /\
+                 lost_log (fold_left step prog' s1) = false.
+  Proof. vm_compute. repeat split; reflexivity. Qed.
+  Example files : map (map w_seq) (wal_files s0) = [[1; 2; 3]; [4; 5; 6; 6; 6; 6; 7; 8; 8; 9]] /\
+                  map (map w_seq) (wal_files (crash s0 8)) = [[1; 2; 3]; [4; 5; 6; 6; 6; 6; 7]] /\
+                  map (map w_seq) (wal_files (crash s0 2)) = [[1; 2; 3]; []].
+  Proof. vm_compute. repeat split; reflexivity. Qed.
+  Example prefix : ack_seqs (init cfg0) prog = [1; 2; 3; 4; 5; 6; 7; 8; 9] /\
+                   surv_count s0 8 (ack_seqs (init cfg0) prog) = 7%nat /\
+                   surv_count s0 2 (ack_seqs (init cfg0) prog) = 3%nat.
+  Proof. vm_compute. repeat split; reflexivity. Qed.
+  Example reads :
+    map (get s0) [k1; k2; k3] = [Some [19]; Some [20]; Some [17]] /\
+    map (get s1) [k1; k2; k3] = [None; Some [16]; Some [17]] /\
+    map (spec_get (firstn 7 (acked (init cfg0) prog))) [k1; k2; k3] = [None; Some [16]; Some [17]] /\
+    map (get (fold_left step prog' s1)) [k1; k2; k3] = [Some [21]; Some [16]; None] /\
+    firstn 7 (ack_seqs (init cfg0) prog) ++ ack_seqs s1 prog' = [1; 2; 3; 4; 5; 6; 7; 8; 9].
+  Proof. vm_compute. repeat split; reflexivity. Qed.
+End C02_example.
+
+(* ---------- repeated crash / recover cycles ---------- *)
+Inductive xop := XOp (o : op) | XCrash (q : N).
+
+Definition xstep (s : st) (x : xop) : st :=
+  match x with XOp o => step s o | XCrash q => recover (crash s q) end.
+
+(* the history of surviving acknowledged writes *)
+Definition xstep_hist (s : st) (x : xop) (h : hist) : hist :=
+  match x with
+  | XOp o => step_hist s o h
+  | XCrash q => match recovered (crash s q) with
+                | None => []
+                | Some _ => firstn (surv_count s q (map fst h)) h
+                end
+  end.
+
+Fixpoint xepoch (s : st) (xs : list xop) (h : hist) : hist :=
+  match xs with
+  | [] => h
+  | x :: r => xepoch (xstep s x) r (xstep_hist s x h)
+  end.
+
+Lemma CInv_xstep : forall s h x, CInv s h -> CInv (xstep s x) (xstep_hist s x h).
+Proof.
+  intros s h [o|q] C; cbn [xstep xstep_hist]; [apply CInv_step; exact C|].
+  destruct (recovered (crash s q)) as [[tbls maxseq]|] eqn:R.
+  - eapply crash_recover_CInv; eassumption.
+  - unfold recover. split; [apply Inv_reopen_fail|apply InvF_reopen_fail]; exact R.
+Qed.
+
+Lemma CInv_xsteps : forall xs s h, CInv s h -> CInv (fold_left xstep xs s) (xepoch s xs h).
+Proof.
+  induction xs as [|x r IH]; intros s h C; [exact C|].
+  cbn [fold_left xepoch]. apply IH. apply CInv_xstep. exact C.
+Qed.
+
+Theorem C02_cycles : forall c xs,
+  let s := fold_left xstep xs (init c) in
+  let h := xepoch (init c) xs [] in
+  lost_log s = false ->
+  (forall k, get s k = spec_get (map snd h) k) /\ StronglySorted N.lt (map fst h).
+Proof.
+  intros c xs. cbn zeta. intros Hl.
+  destruct (CInv_xsteps xs (init c) [] (conj (Inv_init c) (InvF_init c))) as [I _]. split.
+  - intros k. exact (get_inv _ _ k I Hl).
+  - exact (inv_sorted _ _ I).
+Qed.
+
+(* ---------- C02b: the recovery budget (known finding D11) ---------- *)
+Module C02_budget.
+  Definition c0 := mkCfg 1 1.
+  Definition prog : list op := [OPut [1] [10]; OPut [2] [20]].
+End C02_budget.
+
+Theorem C02_budget_refuted : exists c ops q k v,
+  lost_log (run c ops) = false /\
+  lost_log (recover (crash (run c ops) q)) = true /\
+  In (WPut k v) (firstn (surv_count (run c ops) q (ack_seqs (init c) ops)) (acked (init c) ops)) /\
+  In (mkW OpPut 1 k v) (concat (wal_files (crash (run c ops) q))) /\
+  spec_get (firstn (surv_count (run c ops) q (ack_seqs (init c) ops)) (acked (init c) ops)) k = Some v /\
+  get (recover (crash (run c ops) q)) k = None.
+Proof.
+  exists C02_budget.c0, C02_budget.prog, 3, [1], [10]. vm_compute.
+  repeat split; try reflexivity; left; reflexivity.
+Qed.
+
+(* ------------------------------------------------------------------------------------ *)
+(* Part I: C03 — transactions                                                              *)
+(* ------------------------------------------------------------------------------------ *)
+
+Module TestsT.
+  Definition k1 : bytes := [1]. Definition k2 : bytes := [2]. Definition k3 : bytes := [1;0].
+  Definition tx : list bop := [(k2, Some [1]); (k1, Some [2]); (k2, None); (k3, Some [3]); (k1, Some [4]); (k2, Some [5])].
+  Definition c0 := mkCfg 1000 5.
+  Definition p0 : list op := [OPut k1 [0]; OFlush; OCommit [(k1, Some [1]); (k2, Some [2]); (k3, Some [3])]].
+  Eval vm_compute in map (fun n => (map (get (recover (crash_torn (run c0 p0) n))) [k1; k2; k3])) [0; 1; 2; 3]%nat.
+End TestsT.
+
+(* ---------- C03a: a process stop keeps whole writes ---------- *)
+
+Lemma in_wstamp_seq : forall p e, In e (wstamp p) -> w_seq e = fst p.
+Proof.
+  intros p e H. unfold wstamp in H. apply in_map_iff in H. destruct H as (o & <- & _).
+  apply wseq_bop_entry.
+Qed.
+
+(* On disk after a process stop: the log of the first m acknowledged writes; of every
+   acknowledged write either all log entries are there (the write is one of the first m) or
+   none. With C02_crash_prefix: reads after recovery see all operations of a batch or none. *)
+Theorem C03_crash_atomic : forall c ops q,
+  lost_log (run c ops) = false ->
+  let s := run c ops in
+  let m := surv_count s q (ack_seqs (init c) ops) in
+  concat (wal_files (crash s q)) =
+    log_of (firstn m (ack_seqs (init c) ops)) (firstn m (acked (init c) ops)) /\
+  forall i n w, nth_error (history c ops) i = Some (n, w) ->
+    ((i < m)%nat /\ incl (wstamp (n, w)) (concat (wal_files (crash s q)))) \/
+    ((m <= i)%nat /\ forall e, In e (wstamp (n, w)) -> ~ In e (concat (wal_files (crash s q)))).
+Proof.
+  intros c ops q Hl. cbn zeta. destruct (epoch_history c ops Hl) as (E0 & E1 & E2).
+  pose proof (CInv_run c ops) as C. pose proof (crash_log _ _ q C) as L.
+  rewrite E1, E0 in L. split.
+  - rewrite L. unfold log_of, history. rewrite combine_firstn. reflexivity.
+  - intros i n w Hn. rewrite L.
+    set (m := surv_count (run c ops) q (ack_seqs (init c) ops)) in *.
+    apply nth_error_split in Hn. destruct Hn as (l1 & l2 & Eh & Hlen).
+    destruct (Nat.lt_ge_cases i m) as [Hi|Hi].
+    + left. split; [exact Hi|]. intros e He. apply in_wentries.
+      unfold wstamp in He. cbn [fst snd] in He. apply in_map_iff in He. destruct He as (o & <- & Ho).
+      exists (n, w), o. split; [|split; [exact Ho|reflexivity]].
+      rewrite Eh, firstn_app. apply in_or_app. right.
+      replace (m - length l1)%nat with (S (m - length l1 - 1)) by lia. left. reflexivity.
+    + right. split; [exact Hi|]. intros e He Hin. apply in_wstamp_seq in He. cbn [fst] in He.
+      apply in_wentries in Hin. destruct Hin as (p & o & Hp & _ & ->). rewrite wseq_bop_entry in He.
+      pose proof (inv_sorted _ _ (proj1 C)) as S. rewrite E0, Eh, map_app in S.
+      apply SS_app in S. destruct S as (_ & _ & Hcross).
+      rewrite Eh, firstn_app in Hp. replace (m - length l1)%nat with 0%nat in Hp by lia.
+      cbn [firstn] in Hp. rewrite app_nil_r in Hp.
+      assert (Hp1 : In p l1).
+      { rewrite <- (firstn_skipn m l1). apply in_or_app. left. exact Hp. }
+      specialize (Hcross (fst p) n (in_map fst _ _ Hp1) (or_introl eq_refl)). lia.
+Qed.
+
+(* ---------- C03b: a torn final write (known finding D13) ---------- *)
+Module C03_torn.
+  Definition k1 : bytes := [1]. Definition k2 : bytes := [2]. Definition k3 : bytes := [1;0].
+  Definition c0 := mkCfg 1000 5.
+  Definition prog : list op :=
+    [OPut k1 [0]; OFlush; OCommit [(k1, Some [1]); (k2, Some [2]); (k3, Some [3])]].
+End C03_torn.
+
+(* the committed transaction wrote k1, k3, k2; after the torn write only k1's operation is there *)
+Theorem C03_torn_refuted : exists c ops n ka kb va vb tx,
+  lost_log (run c ops) = false /\
+  In (WBatch tx) (acked (init c) ops) /\ In (ka, Some va) tx /\ In (kb, Some vb) tx /\
+  lost_log (recover (crash_torn (run c ops) n)) = false /\
+  get (recover (crash_torn (run c ops) n)) ka = Some va /\
+  get (recover (crash_torn (run c ops) n)) kb = None /\
+  get (run c ops) kb = Some vb.
+Proof.
+  exists C03_torn.c0, C03_torn.prog, 1%nat, C03_torn.k1, C03_torn.k2, [1], [2],
+         [(C03_torn.k1, Some [1]); (C03_torn.k3, Some [3]); (C03_torn.k2, Some [2])].
+  vm_compute. repeat split; try reflexivity.
+  - right. left. reflexivity.
+  - left. reflexivity.
+  - right. right. left. reflexivity.
+Qed.
+
+Lemma wentries_firstn : forall j hl,
+  firstn (length (wentries (firstn j hl))) (wentries hl) = wentries (firstn j hl).
+Proof.
+  intros j hl.
+  assert (E : wentries hl = wentries (firstn j hl) ++ wentries (skipn j hl))
+    by (rewrite <- wentries_app, firstn_skipn; reflexivity).
+  rewrite E at 1. rewrite firstn_app, firstn_all, Nat.sub_diag. cbn [firstn]. apply app_nil_r.
+Qed.
+
+(* a torn write that ends on a write boundary is a process stop *)
+Theorem C03_torn_partial : forall c ops q,
+  lost_log (run c ops) = false ->
+  let s := run c ops in
+  crash_torn s (length (cut_seq q (last (wal_files s) []))) = crash s q.
+Proof.
+  intros c ops q Hl. cbn zeta. destruct (CInv_run c ops) as [I (hs0 & hl & Hh & Hf & _)].
+  unfold crash_torn, crash. f_equal. rewrite Hf, last_last, !map_last_snoc. f_equal. f_equal.
+  rewrite cut_seq_wentries.
+  assert (Hsl : StronglySorted N.lt (map fst hl)).
+  { pose proof (inv_sorted _ _ I) as S. rewrite Hh, map_app in S. apply SS_app in S. tauto. }
+  rewrite (filter_below_prefix q hl Hsl). apply wentries_firstn.
+Qed.
+
+Lemma filter_below_all : forall q l, Forall (fun n => n < q) (map fst l) -> filter (below q) l = l.
+Proof.
+  intros q l H. apply filter_all. intros p Hp. rewrite Forall_forall in H.
+  specialize (H (fst p) (in_map fst _ _ Hp)). unfold below. lia.
+Qed.
+
+(* every write boundary of the newest file is such a point *)
+Theorem C03_torn_boundary : forall c ops,
+  lost_log (run c ops) = false ->
+  let s := run c ops in
+  exists hs0 hl,
+    history c ops = concat hs0 ++ hl /\
+    wal_files s = map wentries hs0 ++ [wentries hl] /\
+    forall j, exists q, crash_torn s (length (wentries (firstn j hl))) = crash s q.
+Proof.
+  intros c ops Hl. cbn zeta. destruct (epoch_history c ops Hl) as (E0 & _ & _).
+  destruct (CInv_run c ops) as [I (hs0 & hl & Hh & Hf & _)]. rewrite E0 in *.
+  exists hs0, hl. split; [exact Hh|]. split; [exact Hf|]. intros j.
+  assert (Hsl : StronglySorted N.lt (map fst hl)).
+  { pose proof (inv_sorted _ _ I) as S. rewrite Hh, map_app in S. apply SS_app in S. tauto. }
+  assert (Hq : exists q, filter (below q) hl = firstn j hl).
+  { destruct (Nat.lt_ge_cases j (length hl)) as [Hj|Hj].
+    - destruct (nth_error hl j) as [x|] eqn:Nx; [|apply nth_error_None in Nx; lia].
+      apply nth_error_split in Nx. destruct Nx as (l1 & l2 & El & Hlen). exists (fst x).
+      rewrite El, map_app in Hsl. cbn [map] in Hsl. apply SS_app in Hsl.
+      destruct Hsl as (_ & S2 & Hcross). inversion S2 as [|? ? _ Hf2]; subst.
+      rewrite firstn_app, Nat.sub_diag, firstn_all, filter_app. cbn [firstn filter].
+      rewrite filter_below_all.
+      + unfold below at 1. rewrite N.ltb_irrefl.
+        rewrite (filter_below_nil (fst x) (fst x) l2 Hf2 (N.ltb_irrefl _)). reflexivity.
+      + rewrite Forall_forall. intros n Hn. exact (Hcross n (fst x) Hn (or_introl eq_refl)).
+    - exists (wal_next (run c ops)). rewrite firstn_all2 by exact Hj. apply filter_below_all.
+      pose proof (inv_bound _ _ I) as B. rewrite Hh, map_app in B. apply Forall_app in B. tauto. }
+  destruct Hq as (q & Eq). exists q.
+  unfold crash_torn, crash. f_equal. rewrite Hf, !map_last_snoc. f_equal. f_equal.
+  rewrite cut_seq_wentries, Eq. apply wentries_firstn.
+Qed.
+
+(* ---------- C03c: the transaction buffer: sorted by key, last operation per key ---------- *)
+
+Definition bkey_lt (a b : bop) : Prop := bcmp (fst a) (fst b) = Lt.
+
+Lemma last_effect_above : forall k (l : list bop),
+  Forall (fun x => bcmp k (fst x) = Lt) l -> last_effect k l = None.
+Proof.
+  intros k l H. induction l as [|[k' v] r IH]; [reflexivity|].
+  inversion H as [|? ? Hx Hr]; subst. cbn [last_effect fst] in *. rewrite (IH Hr).
+  rewrite (beq_false_gt k' k); [reflexivity|]. apply bcmp_gt_lt. exact Hx.
+Qed.
+
+Lemma buf_set_sorted : forall o l, StronglySorted bkey_lt l -> StronglySorted bkey_lt (buf_set o l).
+Proof.
+  intros o l H. induction H as [|x r Hs IH Hf]; cbn [buf_set]; [repeat constructor|].
+  destruct (bcmp (fst x) (fst o)) eqn:C.
+  - apply bcmp_eq in C. constructor; [exact Hs|]. eapply Forall_impl; [|exact Hf].
+    intros y Hy. unfold bkey_lt in *. rewrite <- C. exact Hy.
+  - constructor; [exact IH|]. rewrite Forall_forall in *. intros y Hy.
+    assert (Hy' : y = o \/ In y r).
+    { clear - Hy. induction r as [|z r IHr]; cbn [buf_set] in Hy.
+      - destruct Hy as [<-|[]]. left. reflexivity.
+      - destruct (bcmp (fst z) (fst o)).
+        + destruct Hy as [<-|Hy]; [left; reflexivity|right; right; exact Hy].
+        + destruct Hy as [<-|Hy]; [right; left; reflexivity|].
+          destruct (IHr Hy) as [->|H]; [left; reflexivity|right; right; exact H].
+        + destruct Hy as [<-|Hy]; [left; reflexivity|right; exact Hy]. }
+    destruct Hy' as [->|Hy']; [exact C|exact (Hf y Hy')].
+  - apply bcmp_gt_lt in C. constructor; [constructor; assumption|].
+    constructor; [exact C|]. eapply Forall_impl; [|exact Hf]. intros y Hy. unfold bkey_lt in *.
+    eapply bcmp_lt_trans; eassumption.
+Qed.
+
+Lemma last_effect_buf_set : forall k o l, StronglySorted bkey_lt l ->
+  last_effect k (buf_set o l) = if beq (fst o) k then Some (snd o) else last_effect k l.
+Proof.
+  intros k [ko vo] l H. cbn [fst snd]. induction H as [|[kx vx] r Hs IH Hf]; cbn [buf_set].
+  - cbn [last_effect]. reflexivity.
+  - cbn [fst] in *. unfold bkey_lt in Hf. cbn [fst] in Hf.
+    destruct (bcmp kx ko) eqn:C.
+    + apply bcmp_eq in C. subst kx. cbn [last_effect]. destruct (beq ko k) eqn:B.
+      * apply beq_true_iff in B. subst k. rewrite last_effect_above; [reflexivity|exact Hf].
+      * reflexivity.
+    + cbn [last_effect]. rewrite IH. destruct (beq ko k) eqn:B; [reflexivity|reflexivity].
+    + apply bcmp_gt_lt in C. cbn [last_effect]. destruct (beq ko k) eqn:B.
+      * apply beq_true_iff in B. subst k. rewrite last_effect_above.
+        -- rewrite (beq_false_gt kx ko) by (apply bcmp_gt_lt; exact C). reflexivity.
+        -- eapply Forall_impl; [|exact Hf]. intros y Hy. eapply bcmp_lt_trans; eassumption.
+      * destruct (last_effect k r); [reflexivity|]. destruct (beq kx k); reflexivity.
+Qed.
+
+Lemma buffer_fold_spec : forall ops b, StronglySorted bkey_lt b ->
+  StronglySorted bkey_lt (fold_left (fun b o => buf_set o b) ops b) /\
+  forall k, last_effect k (fold_left (fun b o => buf_set o b) ops b) =
+            match last_effect k ops with Some x => Some x | None => last_effect k b end.
+Proof.
+  induction ops as [|[ko vo] r IH]; intros b Hb; [split; [exact Hb|reflexivity]|].
+  cbn [fold_left]. destruct (IH (buf_set (ko, vo) b) (buf_set_sorted _ _ Hb)) as [S L].
+  split; [exact S|]. intros k. rewrite L, (last_effect_buf_set k (ko, vo) b Hb).
+  cbn [last_effect fst snd]. destruct (last_effect k r); [reflexivity|].
+  destruct (beq ko k); reflexivity.
+Qed.
+
+(* commit = last-op-wins *)
+Theorem C03_last_op_wins : forall ops,
+  StronglySorted (fun a b : bop => bcmp (fst a) (fst b) = Lt) (buffer_ops ops) /\
+  (forall k, last_effect k (buffer_ops ops) = last_effect k ops) /\
+  (forall h k, spec_get (h ++ [WBatch (buffer_ops ops)]) k = spec_get (h ++ [WBatch ops]) k).
+Proof.
+  intros ops. destruct (buffer_fold_spec ops [] (SSorted_nil _)) as [S L].
+  assert (L' : forall k, last_effect k (buffer_ops ops) = last_effect k ops).
+  { intros k. unfold buffer_ops. rewrite L. destruct (last_effect k ops); reflexivity. }
+  split; [exact S|]. split; [exact L'|].
+  intros h k. unfold spec_get, latest, flat. rewrite !flat_map_app. cbn [flat_map effects].
+  rewrite !app_nil_r, !last_effect_app, L'. reflexivity.
+Qed.
+
+Module C03_example.
+  Definition k1 : bytes := [1]. Definition k2 : bytes := [2]. Definition k3 : bytes := [1;0].
+  Definition tx : list bop :=
+    [(k2, Some [1]); (k1, Some [2]); (k2, None); (k3, Some [3]); (k1, Some [4]); (k2, Some [5])].
+  Example buffer : buffer_ops tx = [(k1, Some [4]); (k3, Some [3]); (k2, Some [5])].
+  Proof. vm_compute. reflexivity. Qed.
+End C03_example.
+
+(* ---------- C03d: a rolled-back or failed transaction leaves no trace ---------- *)
+Theorem C03_rollback_no_trace : forall s ops,
+  step s (ORollback ops) = s /\
+  (forall s', tx_commit s ops = (s', WrOverflow) -> s' = s).
+Proof.
+  intros s ops. split; [reflexivity|]. intros s' E.
+  exact (proj2 (proj2 (proj2 (C01_error_no_effect s))) ops s' E).
 Qed.
